@@ -32,7 +32,27 @@ def tasks(tier, seed):
                        weight=max(1, v) * 3))
     ts.append(Task('argument_refusal', MOD, 'task_refusal', (), backend='ground',
                    fuc=['segno.utils.matrix_iter', 'segno.utils.matrix_iter_verbose', 'segno.utils.check_valid_scale', 'segno.utils.check_valid_border']))
+    ts.append(Task('colormap', MOD, 'task_colormap', (), backend='ground', fuc=['segno.writers._make_colormap', 'segno.writers.colorful'], weight=30))
+    for k in range(8):
+        ts.append(Task('bounded_colourful[%d]' % k, MOD, 'task_bounded_colourful', (seed, k, 6 if tier == 'quick' else 40), backend='bounded',
+                       fuc=['segno.writers.colorful', 'segno.writers._make_colormap', 'segno.writers.write_png', 'segno.writers.write_ppm'], weight=40))
     return ts
+
+
+def task_bounded_colourful(I, seed, k, n):
+    """BOUNDED (labelled): colour-indexed PNG / PPM of real symbols, every pixel has the colour configured for the ISO type of its module"""
+    import random
+    from spec import readers_raster as RR
+    from . import c09
+    rnd = random.Random(seed * 6151 + k)
+    syms = [q for q, adv in c09.symbols(rnd) if not adv]
+    I.prefix_tag = 'C11.rendering:'
+    try:
+        for t in range(n):
+            c09._colourful_case(I, RR, syms[(k + t) % len(syms)], rnd)
+    finally:
+        I.prefix_tag = ''
+    I.samples = [dict(bounded='colour-indexed PNG / PPM read back', files=n)]
 
 
 def task_constants(I):
@@ -150,9 +170,84 @@ def task_refusal(I):
             I.explore(lambda I: I.iterate(I.call_function(f, (m, (size, size)), dict(scale=scale, border=border))),
                       lambda I, k, v: res.update(kind=k, val=v))
             wit = dict(function=fname, scale=scale, border=border, outcome=res.get('kind'), value=repr(res.get('val'))[:80])
+            I.replay_spec = dict(fn='replay_iter_refusal', function=fname, scale=scale, border=border, ok=ok)
             if ok:
                 s = int(scale)
                 b = 4 if border is None else int(border)
                 I.ground('C11.%s.accepts_and_truncates_scale' % fname, res.get('kind') == 'return' and len(res['val']) == (size + 2 * b) * s, witness=wit)
             else:
                 I.ground('C11.%s.refuses_with_ValueError' % fname, res.get('kind') == 'raise' and isinstance(res['val'], ValueError), witness=wit)
+    I.replay_spec = None
+
+
+# ------------------------------------------------------------------ colour map: module type -> configured colour (opaque colour values)
+COLOUR_OPTION = {'FINDER_PATTERN': 'finder', 'DATA': 'data', 'VERSION': 'version', 'FORMAT': 'format', 'ALIGNMENT_PATTERN': 'alignment', 'TIMING': 'timing'}
+ALL_OPTIONS = [p + s_ for p in COLOUR_OPTION.values() for s_ in ('_dark', '_light')] + ['separator', 'dark_module', 'quiet_zone']
+
+
+class _Colour:
+    """opaque colour value: the colour map may only pass it on"""
+
+    def __init__(self, name):
+        self.name = name
+
+    def __repr__(self):
+        return '<colour %s>' % self.name
+
+
+def _types_of_version(c, v):
+    """module types that occur in a symbol of version v -> (option name, falls back to dark?)"""
+    out = {}
+    for nm, opt in COLOUR_OPTION.items():
+        if nm == 'ALIGNMENT_PATTERN' and v < 2 or nm == 'VERSION' and v < 7:
+            continue
+        out[getattr(c, 'TYPE_%s_DARK' % nm)] = (opt + '_dark', True)
+        out[getattr(c, 'TYPE_%s_LIGHT' % nm)] = (opt + '_light', False)
+    out[c.TYPE_SEPARATOR] = ('separator', False)
+    out[c.TYPE_QUIET_ZONE] = ('quiet_zone', False)
+    if v >= 1:
+        out[c.TYPE_DARKMODULE] = ('dark_module', True)
+    return out
+
+
+def task_colormap(I):
+    """the real colorful() wrapper and _make_colormap executed with opaque colour values: for every version, the colour of
+    every module type that occurs is the value of its own option if given (None = transparent included), else dark / light"""
+    c = C.consts()
+    col = I.get_function('segno.writers', 'colorful')
+    import segno.writers as W
+    for nm in ('write_svg', 'write_png', 'write_ppm'):
+        f = getattr(W, nm)
+        I.ground('C11.colormap.serialiser_is_wrapped_by_colorful', getattr(f, '__wrapped__', None) is not None and f.__qualname__ == nm and
+                 f.__code__ is W.colorful(None, None)(lambda *a, **k: None).__code__, witness=nm)
+    rp = dict(fn='replay_colourful_map')
+    for v in iso.ALL_VERSIONS:
+        size = iso.symbol_size(v)
+        types = _types_of_version(c, v)
+        cases = [{}, {o: _Colour(o) for o in ALL_OPTIONS}] + [{o: _Colour(o)} for o in ALL_OPTIONS] + [{o: None} for o in ALL_OPTIONS]
+        if v not in (iso.M1, 1, 2, 7, 40):
+            cases = cases[:2] + cases[2 + (v % 17):][:3]
+        for opts in cases:
+            got = {}
+
+            def stub(matrix, matrix_size, out, colormap, **kw):
+                got.update(cm=colormap, kw=kw, pos=(matrix, matrix_size, out))
+                return 'RESULT'
+            dark, light = _Colour('dark'), _Colour('light')
+
+            def thunk(I):
+                deco = I.call_function(col, (dark, light), {})
+                w = I.call_function(deco, (stub,), {})
+                return I.call_function(w, ('MATRIX', (size, size), 'OUT'), dict(opts, scale=3, border=1))
+            res = {}
+            I.explore(thunk, lambda I, k, val: res.update(kind=k, val=val))
+            cm = got.get('cm') or {}
+            wit = dict(version=iso.version_name(v), options=sorted(opts))
+            ok = res.get('kind') == 'return' and res.get('val') == 'RESULT' and got.get('kw') == dict(scale=3, border=1) and got.get('pos') == ('MATRIX', (size, size), 'OUT')
+            I.ground('C11.colormap.wrapper_forwards_matrix_stream_and_other_options_unchanged', ok, witness=wit, replay=rp)
+            bad = []
+            for t, (opt, is_dark) in types.items():
+                want = opts[opt] if opt in opts else (dark if is_dark else light)
+                if t not in cm or cm[t] is not want:
+                    bad.append((t, opt, repr(cm.get(t, 'missing'))))
+            I.ground('C11.colormap.type_colour_is_its_own_option_else_dark_or_light', not bad, witness=dict(wit, wrong=bad[:3]), replay=rp)
